@@ -14,6 +14,17 @@
 //!             protocol, plus chaos threads issuing aborts, commits, sweeps, duplicate votes and
 //!             duplicate prepares); oracle at quiescence. This is the workload of the TSan leg.
 //!
+//!             A PREPARE may also reach a shard outside the participant list (mis-routed or
+//!             mis-addressed duplicate); that shard prepares and answers with its own id. Two thirds
+//!             of the threaded cases use large transactions (hundreds of writes to own keys around
+//!             the contended ones), a network thread keeps re-delivering PREPAREs and the ABORTs
+//!             behind them; in three quarters of them a participant handles the messages of one
+//!             transaction one at a time (different transactions run side by side), in the rest
+//!             everything is concurrent.
+//!  burst    : part of the threaded mode: duplicates of one PREPARE and its ABORT released by a
+//!             barrier on one participant, then a second transaction commits on the same key and
+//!             the first abort is delivered again.
+//!
 //! Oracle, clause by clause of the statement (nothing else is demanded):
 //!  (a) the decision events of one transaction (`commit` Ok, `abort` Ok, listed by
 //!      `cleanup_timeouts`, `record_vote` => Aborting, listed by `take_pending_aborts`) never
@@ -25,6 +36,8 @@
 //!      transactions whose `TxParticipant::commit` reported success, in that order.
 //!  (c) at quiescence every yes-voting shard of a committed transaction has reported a successful
 //!      `TxParticipant::commit` (re-delivery of an applied commit is not judged).
+//!  (c') at quiescence a key written on a shard by committed transactions that were applied there
+//!      holds what one of them left (their order is not judged) — "no participant discards them".
 //!  (d) aborted / timed-out transactions leave data as it was: `TxParticipant::abort` never changes
 //!      the shard's store (writes are applied at commit only, so whatever abort changes belongs to
 //!      somebody else), none of their values is visible, and keys touched only by non-committed
@@ -790,6 +803,10 @@ struct Shared {
     found: Mutex<Vec<Found>>,
     ops: std::sync::atomic::AtomicU64,
     dup_prepares: std::sync::atomic::AtomicU64,
+    /// `Some`: a participant handles the messages of one transaction one at a time (messages of
+    /// different transactions still run side by side); `None`: everything runs concurrently, also
+    /// duplicates of one transaction's PREPARE with each other and with its ABORT/COMMIT
+    gates: Option<Vec<Vec<Mutex<()>>>>,
 }
 
 impl Shared {
@@ -823,11 +840,25 @@ impl Shared {
         }
         None
     }
+    fn gate(&self, i: usize, s: usize) -> Option<parking_lot::MutexGuard<'_, ()>> {
+        self.gates.as_ref().map(|g| g[i][s].lock())
+    }
+    fn p_prepare(&self, i: usize, id: u64, to: usize, ops_of: usize) -> PrepareVote {
+        let _g = self.gate(i, to);
+        self.parts[to].prepare(prepare_request(id, &self.plan.txs[i].ops[&ops_of]))
+    }
+    fn p_abort(&self, i: usize, id: u64, s: usize) {
+        let _g = self.gate(i, s);
+        let _ = self.parts[s].abort(id);
+    }
     fn deliver_decision(&self, i: usize, d: Dec) {
         let Some(id) = self.id(i) else { return };
         for &s in &self.plan.txs[i].participants {
             if d == Dec::Commit {
-                let r = self.parts[s].commit(id);
+                let r = {
+                    let _g = self.gate(i, s);
+                    self.parts[s].commit(id)
+                };
                 let mut obs = self.obs.lock();
                 if r.success {
                     obs[i].applied.insert(s);
@@ -835,7 +866,7 @@ impl Shared {
                     obs[i].commit_errors.insert(s, r.error.unwrap_or_default());
                 }
             } else {
-                let _ = self.parts[s].abort(id);
+                self.p_abort(i, id, s);
             }
         }
     }
@@ -855,7 +886,7 @@ fn threaded_case(case_seed: u64, rep: &mut Report) {
     // half of the cases use large transactions: many writes to keys of their own around the few
     // contended ones, so that applying a commit on a shard takes long enough for other messages
     // to arrive at that shard meanwhile
-    let big = rng.bool();
+    let big = rng.chance(2, 3);
     if big {
         for (i, t) in plan.txs.iter_mut().enumerate() {
             for (s, ops) in t.ops.iter_mut() {
@@ -873,6 +904,8 @@ fn threaded_case(case_seed: u64, rep: &mut Report) {
     }
     let (coord, parts) = build_world(&plan);
     let n = plan.txs.len();
+    let serial_per_tx = rng.chance(3, 4);
+    let gates = if serial_per_tx { Some((0..n).map(|_| (0..plan.shards).map(|_| Mutex::new(())).collect()).collect()) } else { None };
     let finished = std::sync::atomic::AtomicUsize::new(0);
     struct Done<'a>(&'a std::sync::atomic::AtomicUsize);
     impl Drop for Done<'_> {
@@ -880,7 +913,7 @@ fn threaded_case(case_seed: u64, rep: &mut Report) {
             self.0.fetch_add(1, std::sync::atomic::Ordering::SeqCst);
         }
     }
-    let sh = Arc::new(Shared { plan, coord, parts, obs: Mutex::new(vec![TxObs::default(); n]), found: Mutex::new(Vec::new()), ops: Default::default(), dup_prepares: Default::default() });
+    let sh = Arc::new(Shared { plan, coord, parts, obs: Mutex::new(vec![TxObs::default(); n]), found: Mutex::new(Vec::new()), ops: Default::default(), dup_prepares: Default::default(), gates });
     let chaos_threads = 1 + rng.below(2);
     let seeds: Vec<u64> = (0..n + chaos_threads + 1).map(|_| rng.next_u64()).collect();
     let finished = &finished;
@@ -901,7 +934,7 @@ fn threaded_case(case_seed: u64, rep: &mut Report) {
                     if rng.chance(1, 6) {
                         std::thread::yield_now();
                     }
-                    let v = sh.parts[s].prepare(prepare_request(t.tx_id, &sh.plan.txs[i].ops[&s]));
+                    let v = sh.p_prepare(i, t.tx_id, s, s);
                     sh.obs.lock()[i].cast.insert(s, v.clone());
                     if rng.chance(1, 10) {
                         continue; // vote lost
@@ -967,7 +1000,7 @@ fn threaded_case(case_seed: u64, rep: &mut Report) {
                             // duplicate prepare reaching a participant late
                             if let Some(id) = sh.id(i) {
                                 let s = *rng.pick(&sh.plan.txs[i].participants);
-                                let v = sh.parts[s].prepare(prepare_request(id, &sh.plan.txs[i].ops[&s]));
+                                let v = sh.p_prepare(i, id, s, s);
                                 sh.obs.lock()[i].cast.insert(s, v);
                             }
                         }
@@ -977,7 +1010,7 @@ fn threaded_case(case_seed: u64, rep: &mut Report) {
                             if let (Some(id), false) = (sh.id(i), outside.is_empty()) {
                                 let to = *rng.pick(&outside);
                                 let of = *rng.pick(&sh.plan.txs[i].participants);
-                                let v = sh.parts[to].prepare(prepare_request(id, &sh.plan.txs[i].ops[&of]));
+                                let v = sh.p_prepare(i, id, to, of);
                                 let _ = sh.vote(i, to, v);
                             }
                         }
@@ -1002,14 +1035,14 @@ fn threaded_case(case_seed: u64, rep: &mut Report) {
                         continue;
                     };
                     let s = *rng.pick(&sh.plan.txs[i].participants);
-                    let v = sh.parts[s].prepare(prepare_request(id, &sh.plan.txs[i].ops[&s]));
+                    let v = sh.p_prepare(i, id, s, s);
                     sh.obs.lock()[i].cast.insert(s, v.clone());
                     if rng.chance(1, 4) {
                         let _ = sh.vote(i, s, v);
                     }
                     let aborted = sh.obs.lock()[i].decision() == Some(Dec::Abort);
                     if aborted && rng.bool() {
-                        let _ = sh.parts[s].abort(id);
+                        sh.p_abort(i, id, s);
                     }
                     if rng.chance(1, 3) {
                         std::thread::yield_now();
@@ -1053,14 +1086,18 @@ fn threaded_case(case_seed: u64, rep: &mut Report) {
     if big {
         rep.count("threaded:cases-with-large-transactions", 1);
     }
+    rep.count(if serial_per_tx { "threaded:cases-one-message-per-tx-at-a-time" } else { "threaded:cases-fully-concurrent" }, 1);
     rep.eval(case_seed, committed + aborted > 0);
     let mut seen = BTreeSet::new();
     for f in found {
         if !seen.insert(f.sig.clone()) {
             continue;
         }
+        // data lost while one participant handled several messages of the *same* transaction at
+        // once is a different failure class from data lost between different transactions
+        let suffix = if f.sig == "committed-write-lost" && !serial_per_tx { ":same-tx-messages-handled-concurrently" } else { "" };
         rep.violation(
-            format!("threaded:{}", f.sig),
+            format!("threaded:{}{}", f.sig, suffix),
             format!("{} | plan {} | decisions {:?}", f.detail, plan_json(&sh.plan), obs.iter().map(|o| o.decisions.clone()).collect::<Vec<_>>()),
             json!({"mode": "threaded", "case_seed": case_seed}),
         );
@@ -1082,8 +1119,108 @@ fn witness() {
     println!("store: {:?}   <- B was committed and applied, its write is gone", snapshot(p.store()));
 }
 
+/// Duplicates of one transaction's PREPARE and its ABORT handled by one participant at the same
+/// moment (three threads released by a barrier), many rounds on one participant with a fresh key
+/// and fresh transaction ids per round. Afterwards, sequentially: another transaction writes the
+/// same key and commits, then the abort of the first is delivered once more. Clause (d): the
+/// aborted transaction must leave the committed write alone.
+fn burst_case(case_seed: u64, rep: &mut Report) {
+    let mut rng = Rng::new(case_seed);
+    let p = Arc::new(TxParticipant::new(TensorStore::new()));
+    let rounds = 1500u64;
+    let mut t0_committed = 0u64;
+    let mut done = 0u64;
+    for it in 0..rounds {
+        done += 1;
+        let key = format!("k{}", it);
+        let (t1, t0) = (case_seed.wrapping_mul(4096).wrapping_add(2 * it + 1), case_seed.wrapping_mul(4096).wrapping_add(2 * it + 2));
+        let ops1 = vec![Transaction::Put { key: key.clone(), data: format!("t1:s0:{}", it).into_bytes() }];
+        let ops0 = vec![Transaction::Put { key: key.clone(), data: format!("t0:s0:{}", it).into_bytes() }];
+        let dups = 2 + rng.below(2);
+        let bar = Arc::new(std::sync::Barrier::new(dups + 1));
+        std::thread::scope(|sc| {
+            for who in 0..=dups {
+                let (p, bar, ops1) = (p.clone(), bar.clone(), ops1.clone());
+                sc.spawn(move || {
+                    bar.wait();
+                    if who < dups {
+                        let _ = p.prepare(prepare_request(t1, &ops1));
+                    } else {
+                        let _ = p.abort(t1);
+                    }
+                });
+            }
+        });
+        // quiescent from here on
+        if matches!(p.prepare(prepare_request(t0, &ops0)), PrepareVote::Yes { .. }) && p.commit(t0).success {
+            t0_committed += 1;
+            let _ = p.abort(t1); // the abort of T1 is delivered (again)
+            let have = p.store().get(&key).ok().map(|d| tag_of(&d));
+            if have.as_deref() != Some(&format!("t0:s0:{}", it)) {
+                rep.violation(
+                    "threaded:committed-write-lost:same-tx-messages-handled-concurrently",
+                    format!(
+                        "round {}: {} duplicates of PREPARE(T1) and ABORT(T1) were handled concurrently by one participant; then T0 prepared (yes) and committed a write to {:?}; after ABORT(T1) was delivered again the key holds {:?}",
+                        it, dups, key, have
+                    ),
+                    json!({"mode": "burst", "case_seed": case_seed}),
+                );
+                break;
+            }
+        } else {
+            let _ = p.abort(t0);
+            let _ = p.abort(t1);
+        }
+    }
+    rep.count("threaded:same-tx-burst-rounds", done);
+    rep.count("threaded:same-tx-burst-rounds-with-later-commit", t0_committed);
+    rep.eval(case_seed ^ 0xB0B, t0_committed > 0);
+}
+
+/// `c03 witness-race`: two duplicates of PREPARE(T1) and an ABORT(T1) handled at the same time by
+/// one participant, repeated until the participant is left with a prepared entry for T1 whose key
+/// lock is gone; then the consequence is played out sequentially. No oracle involved.
+fn witness_race() {
+    let p = Arc::new(TxParticipant::new(TensorStore::new()));
+    for it in 0..300_000u64 {
+        let key = format!("k{}", it);
+        let (t1, t0) = (2 * it + 1, 2 * it + 2);
+        let ops1 = vec![Transaction::Put { key: key.clone(), data: b"T1".to_vec() }];
+        let bar = Arc::new(std::sync::Barrier::new(3));
+        std::thread::scope(|sc| {
+            for who in 0..3 {
+                let (p, bar, ops1) = (p.clone(), bar.clone(), ops1.clone());
+                sc.spawn(move || {
+                    bar.wait();
+                    if who < 2 {
+                        let _ = p.prepare(prepare_request(t1, &ops1));
+                    } else {
+                        let _ = p.abort(t1);
+                    }
+                });
+            }
+        });
+        let still_prepared = p.prepared.read().contains_key(&t1);
+        let holder = p.locks.lock_holder(&key);
+        if still_prepared && holder != Some(t1) {
+            println!("iteration {}: after PREPARE(T1) x2 and ABORT(T1) handled concurrently: T1 still prepared = {}, lock holder of {:?} = {:?}", it, still_prepared, key, holder);
+            let ops0 = vec![Transaction::Put { key: key.clone(), data: b"T0".to_vec() }];
+            println!("prepare(T0 writes the same key) -> yes: {}", matches!(p.prepare(prepare_request(t0, &ops0)), PrepareVote::Yes { .. }));
+            println!("commit(T0) -> success {}; key holds {:?}", p.commit(t0).success, p.store().get(&key).ok().map(|d| tag_of(&d)));
+            println!("abort(T1) re-delivered -> success {}; key holds {:?}   <- T0 was committed and applied", p.abort(t1).success, p.store().get(&key).ok().map(|d| tag_of(&d)));
+            return;
+        }
+        let _ = p.abort(t1);
+    }
+    println!("not reproduced in 300000 iterations");
+}
+
 fn main() {
     let args = Args::parse();
+    if args.rest.iter().any(|a| a == "witness-race") {
+        witness_race();
+        return;
+    }
     if args.rest.iter().any(|a| a == "witness") {
         witness();
         return;
@@ -1098,7 +1235,14 @@ fn main() {
         let v: Value = serde_json::from_str(&std::fs::read_to_string(p).expect("replay file")).expect("json");
         let rp = if v.get("replay").is_some() { &v["replay"] } else { &v };
         let seed = rp["case_seed"].as_u64().expect("case_seed");
-        if rp["mode"].as_str() == Some("threaded") {
+        if rp["mode"].as_str() == Some("burst") {
+            for _ in 0..50 {
+                burst_case(seed, &mut total);
+                if total.violations_total > 0 {
+                    break;
+                }
+            }
+        } else if rp["mode"].as_str() == Some("threaded") {
             // a thread schedule cannot be replayed exactly: run the same case repeatedly
             for _ in 0..200 {
                 threaded_case(seed, &mut total);
@@ -1117,8 +1261,11 @@ fn main() {
         }
         if mode == "both" || mode == "threaded" {
             // each case spawns 2-6 threads of its own: run fewer cases side by side
-            let n = args.extra_u64("threaded-cases", args.by_tier(800, 40_000));
-            let rep = par_cases((args.threads / 3).max(1), args.seed ^ 0x7A, n, args.budget(25, 240), |_i, s, r| threaded_case(s, r));
+            let n = args.extra_u64("threaded-cases", args.by_tier(2_400, 60_000));
+            let rep = par_cases((args.threads / 3).max(1), args.seed ^ 0x7A, n, args.budget(30, 240), |_i, s, r| threaded_case(s, r));
+            total.merge(rep);
+            let n = args.extra_u64("burst-cases", args.by_tier(12, 200));
+            let rep = par_cases((args.threads / 4).max(1), args.seed ^ 0x7B, n, args.budget(10, 60), |_i, s, r| burst_case(s, r));
             total.merge(rep);
         }
     }
@@ -1141,7 +1288,7 @@ fn main() {
             ]);
         }
         if mode == "both" || mode == "threaded" {
-            floors.extend([("threaded_cases", 40u64), ("threaded:decided:commit", 15), ("threaded:decided:abort", 20)]);
+            floors.extend([("threaded_cases", 40u64), ("threaded:decided:commit", 15), ("threaded:decided:abort", 20), ("threaded:same-tx-burst-rounds-with-later-commit", 100)]);
         }
     }
     let meta = Meta {
@@ -1152,6 +1299,8 @@ fn main() {
             "a timeout event = sleep 1.1 ms + cleanup_timeouts() with prepare_timeout_ms = 0; the list it returns is the observation, the clock is not judged".into(),
             "re-delivery of a commit that was already applied is not judged (the statement is silent); the reference state follows every successful TxParticipant::commit".into(),
             "one case in six also uses typed operations (NodeCreate/NodeDelete/TableInsert) next to Put/Delete on the same storage keys (node:n0, table:tb), i.e. overlapping data under different lock names".into(),
+            "a vote is attributed to the shard that produced it; a shard outside the participant list that receives a mis-routed PREPARE answers like any other, and its vote is not a participant's vote: commit still needs an accepted yes of every participant".into(),
+            "threaded final-state clause: a key written by committed-and-applied transactions must hold what one of them left (order between them not judged); sound because a transaction's undo image is captured and re-applied under its own key lock".into(),
         ],
         floors,
         exhaustive: false,
